@@ -200,6 +200,43 @@ def sim(v, t):
         if v[s(2)] >= 0:
             import math
             v[s(1)] = math.isqrt(v[s(2)])
+    elif op == "ring":
+        kind, d, a, b, e = t[1], s(2), s(3), s(4), s(5)
+        m = abs(v[b])
+        if m <= 1:
+            return
+        import math
+        inv = lambda x: pow(x, -1, m) if math.gcd(x, m) == 1 else 0
+        sg = lambda x, y: -y if x < 0 else y
+        if kind == "new":
+            v[b] = 0
+            r = m
+        elif kind == "res":
+            r = v[a] % m
+        elif kind == "mul":
+            x, y = v[a] % m, v[d] % m
+            r = (x * y + x - y) % m
+        elif kind == "inv":
+            r = inv(v[a] % m)
+        elif kind == "pow":
+            r = pow(v[a] % m, e, m)
+        elif kind == "rem":
+            r = sg(v[a], abs(v[a]) % m)
+        elif kind == "remv":
+            x = v[a]
+            v[a] = 0
+            r = sg(x, abs(x) % m)
+        elif kind == "div":
+            r = sg(v[a], abs(v[a]) // m)
+        elif kind == "rmul":
+            r = pow(abs(v[a]) % m, 3, m)
+        elif kind == "rinv":
+            r = inv(abs(v[a]) % m)
+        elif kind == "rpow":
+            r = pow(abs(v[a]) % m, e, m)
+        else:
+            r = (-3 * (abs(v[a]) % m)) % m
+        v[d] = r
     elif op in ("addp", "subp", "mulp"):
         p = small_prim(t[2], z(3))
         d = s(1)
@@ -249,7 +286,7 @@ def gen_boundary(rng, k=None):
     fw = lambda slot, x: "fw %x %s 0" % (slot, hx(x))
     dw = lambda slot, x: "dw %x %s 0" % (slot, hx(x))
     if k is None:
-        k = rng.below(20)
+        k = rng.below(21)
     if k == 0:
         # add: two double words whose sum needs a third word (add_dword spills) or just does not
         x = (1 << 128) - rng.choice([1, 1, 2, 1 << 64, rng.bits(64) + 1])
@@ -364,6 +401,20 @@ def gen_boundary(rng, k=None):
         steps = [fw(d, x), "setbit %x %x" % (d, 64 * c - 1)]
         steps.append("%s %s %x %x %x" % (rng.choice(["uadd", "iadd", "isub", "usub", "umul", "imul"]), rng.choice(["av", "ar", "vv", "vr", "rv", "rr"]), d, d, d))
         return steps
+    if k == 20:
+        # Buffer::into_boxed_slice: a modulus with len < capacity <= max_compact_capacity(len) (no shrink needed by
+        # the compactness rule, the Box still has to be exactly len words), with len = capacity, and with a
+        # capacity far above (after a shift right)
+        x = top_set(rng, n) | 1
+        steps = [fw(d, x)]
+        r = rng.below(3)
+        if r == 1:
+            steps.append("setbit %x %x" % (d, 64 * c - 1))
+        elif r == 2:
+            steps.append("shr a %x %x %x" % (d, d, 64 * rng.range(0, max(0, n - 3))))
+        steps.append(dw(e, rng.bits(128) | 1) if rng.chance(1, 2) else fw(e, top_set(rng, rng.choice([3, n, n + 2, 2 * n]))))
+        steps.append("ring %s %x %x %x %x" % (rng.choice(RING_KINDS), t, e, d, rng.choice([0, 1, 2, 5, 17])))
+        return steps
     if k == 16:
         # & : a long value and a mask that leaves 3 / 2 / 1 / 0 words (truncate + shrink or inline); small & large (lowest_dword)
         big = rng.choice([3, 4, 9, 17, 33])
@@ -408,6 +459,30 @@ def gen_boundary(rng, k=None):
     # subtraction / addition of a primitive across the boundary
     x = rng.choice([1 << 128, (1 << 128) + 5, (1 << 128) - 1, 1 << 192])
     return [fw(d, x) if x >> 128 else dw(d, x), "%s %x %s %s" % (rng.choice(["subp", "addp"]), d, rng.choice(["u64", "i64"]), hx(rng.choice([1, 5, 6, M64 >> 1])))]
+
+
+RING_KINDS = ["new", "res", "res", "mul", "inv", "pow", "pow", "rem", "remv", "div", "rmul", "rinv", "rpow", "rneg"]
+
+
+def gen_ring(rng, v, fresh=None):
+    """modular arithmetic through ConstDivisor / Reduced / Reducer: the Buffer -> Box<[Word]> conversions
+    (Buffer::into_boxed_slice) happen for a modulus of >= 3 words; also one- and two-word moduli"""
+    d, a = rng.below(4), rng.below(4)
+    cand = [i for i in range(4) if nwords(v[i]) >= 3] if rng.chance(3, 4) else [i for i in range(4) if abs(v[i]) >= 2]
+    steps = []
+    if not cand or fresh or rng.chance(1, 4):
+        b = rng.below(4)
+        n = rng.choice([1, 2, 3, 3, 3, 4, 5, 8, 9, 16, 17, 33])
+        m = gen_mag(rng, n) | rng.choice([0, 1])
+        if m < 2:
+            m = 3
+        steps.append("fw %x %s %x" % (b, hx(m * rng.choice([1, 1, -1])), rng.choice([0, 0, 1])))
+    else:
+        b = rng.choice(cand)
+    kind = rng.choice(RING_KINDS)
+    e = rng.choice([0, 0, 1, 2, 3, 5, 17, rng.below(40)])
+    steps.append("ring %s %x %x %x %x" % (kind, d, a, b, e))
+    return steps
 
 
 def gen_step(rng, v):
@@ -508,6 +583,8 @@ def gen_step(rng, v):
         if op == "mulp" and nwords(v[d]) + 1 > MAXW:
             op = "addp"
         return "%s %x %s %s" % (op, d, ty, hx(x))
+    if k < 97:
+        return gen_ring(rng, v)
     if k < 99:
         kind = rng.choice(["le", "be", "ule", "ube", "words", "parts", "str10", "str16", "str7", "chunks", "u128", "i128", "ubig"])
         if kind == "chunks":
